@@ -589,8 +589,6 @@ def correspond_nf(ctx, strings, reals, disagreements, label):
             ctx.count("nf:excluded_pattern")
             if same:
                 ctx.count("nf:excluded_pattern_but_roundtrips")
-            if same and (m["ellList"] or m["flatConcat"]):
-                # (`Ellipsis` over `Ellipsis` over the anonymous axis, "......", does round-trip: `patEllEll` is coarser than necessary)
                 disagreements.append((label, "nf", s, f"tree contains an excluded pattern but the real round trip succeeds: {r['str']!r}"))
         else:
             ctx.count("nf:excluded_open_restriction")
